@@ -102,7 +102,7 @@ Proof.
   replace (c >? 0) with false by lia. unfold input_vals_neg_step.
   replace (s >=? n) with false by lia. replace (s >=? 0) with false by lia.
   replace (s <? - n) with false by lia. replace (e >=? 0) with false by lia.
-  replace (Z.max e (- n - 1)) with e by lia. reflexivity.
+  replace (Z.max e (- n - 1)) with e by lia. destruct (s <? e); reflexivity.
 Qed.
 
 Lemma WF_zero n off : 0 <= n -> WF (mkV 0 0 1 n off).
@@ -156,4 +156,200 @@ Proof.
     bdestr (s1 >=? e1) E3; intros [= <-]; [now apply WF_zero|].
     split; [assumption|]. left. cbn [step start stop seq_len].
     subst s1 e1. destruct (s0 <? 0) eqn:E4; destruct (e0 >? 0) eqn:E5; destruct (e0 <? 0) eqn:E6; lia.
+Qed.
+
+(** * the invariant is preserved *)
+
+Lemma wf_zero_slice fl v v' : WF v -> zero_slice fl v = Ok v' -> WF v'.
+Proof.
+  intros Hwf. destruct fl; cbn [zero_slice]; intros H.
+  - apply (wf_mk_view_lemma 0 None None None 0 v'); [lia|exact H].
+  - apply (wf_mk_view_lemma (seq_len v) (Some 0) (Some 0) None 0 v'); [apply Hwf|exact H].
+Qed.
+
+Lemma wf_rebuild v s e c v' : WF v -> rebuild v s e c = Ok v' -> WF v'.
+Proof. intros Hwf H. apply (wf_mk_view_lemma _ _ _ _ _ _ (proj1 Hwf) H). Qed.
+
+Lemma wf_copy_view fl v v' : WF v -> copy_view fl v = Ok v' -> WF v'.
+Proof.
+  intros Hwf. destruct fl; cbn [copy_view]; intros H.
+  - apply (wf_mk_view_lemma _ _ _ _ _ _ (proj1 Hwf) H).
+  - now inversion H; subst.
+Qed.
+
+Lemma wf_getitem_int_lemma v i v' : WF v -> getitem_int v i = Ok v' -> WF v'.
+Proof.
+  intros Hwf. unfold getitem_int, bind.
+  destruct (get_index v i false) as [[[s e] c]|]; [|discriminate].
+  apply wf_rebuild; assumption.
+Qed.
+
+Lemma wf_getitem_slice_lemma fl v a b c v' : WF v -> getitem_slice fl v a b c = Ok v' -> WF v'.
+Proof.
+  intros Hwf.
+  assert (Hmain : (if vlen v =? 0 then Ok v else
+      if opt_eqb a b then zero_slice fl v else
+      let slice_step := match c with None => 1 | Some x => x end in
+      if slice_step >? 0 then get_slice fl v a b slice_step
+      else if slice_step <? 0 then get_reverse_slice fl v a b slice_step
+      else Err E_Value) = Ok v' -> WF v').
+  { destruct (vlen v =? 0); [intros [= <-]; exact Hwf|].
+    destruct (opt_eqb a b); [apply wf_zero_slice; exact Hwf|].
+    cbv zeta. set (k := match c with None => 1 | Some x => x end).
+    destruct (k >? 0).
+    - unfold get_slice. destruct (step v >? 0).
+      + unfold get_forward_slice_from_forward.
+        repeat match goal with |- (if ?x then zero_slice _ _ else _) = _ -> _ =>
+          destruct x; [apply wf_zero_slice; exact Hwf|] end.
+        apply wf_rebuild; exact Hwf.
+      + destruct (step v <? 0); [|discriminate].
+        unfold get_forward_slice_from_reverse.
+        repeat match goal with |- (if ?x then zero_slice _ _ else _) = _ -> _ =>
+          destruct x; [apply wf_zero_slice; exact Hwf|] end.
+        apply wf_rebuild; exact Hwf.
+    - destruct (k <? 0); [|discriminate].
+      unfold get_reverse_slice. destruct (step v <? 0).
+      + unfold get_reverse_slice_from_reverse. cbv zeta.
+        repeat match goal with |- (if ?x then zero_slice _ _ else _) = _ -> _ =>
+          destruct x; [apply wf_zero_slice; exact Hwf|] end.
+        apply wf_rebuild; exact Hwf.
+      + destruct (step v >? 0); [|discriminate].
+        unfold get_reverse_slice_from_forward. cbv zeta.
+        repeat match goal with |- (if ?x then zero_slice _ _ else _) = _ -> _ =>
+          destruct x; [apply wf_zero_slice; exact Hwf|] end.
+        apply wf_rebuild; exact Hwf. }
+  unfold getitem_slice.
+  destruct a; [exact Hmain|]. destruct b; [exact Hmain|]. destruct c; [exact Hmain|].
+  apply wf_copy_view; exact Hwf.
+Qed.
+
+(** * Python-level algebra used below (no view notions) *)
+
+Lemma range_len_pos_char s e c m : 0 < c ->
+  (e <= s /\ m = 0) \/ (s < e /\ c * (m - 1) < e - s <= c * m) -> range_len s e c = m.
+Proof.
+  intros Hc [[H1 ->]|[H1 H2]].
+  - now apply range_len_pos_empty.
+  - rewrite range_len_pos_cdiv by lia. apply cdiv_uniq; assumption.
+Qed.
+
+Lemma range_len_neg_char s e c m : c < 0 ->
+  (s <= e /\ m = 0) \/ (e < s /\ (- c) * (m - 1) < s - e <= (- c) * m) -> range_len s e c = m.
+Proof.
+  intros Hc [[H1 ->]|[H1 H2]].
+  - now apply range_len_neg_empty.
+  - rewrite range_len_neg_cdiv by lia. apply cdiv_uniq; [lia|assumption].
+Qed.
+
+Lemma range_len_pos_cases s e c : 0 < c ->
+  (e <= s /\ range_len s e c = 0) \/
+  (s < e /\ 0 < range_len s e c /\ c * (range_len s e c - 1) < e - s <= c * range_len s e c).
+Proof.
+  intros Hc. destruct (Z_lt_le_dec s e) as [H|H].
+  - right. pose proof (range_len_pos_spec s e c Hc H). split; [assumption|]. split; [nia|assumption].
+  - left. split; [assumption|]. now apply range_len_pos_empty.
+Qed.
+
+Lemma range_len_neg_cases s e c : c < 0 ->
+  (s <= e /\ range_len s e c = 0) \/
+  (e < s /\ 0 < range_len s e c /\ (- c) * (range_len s e c - 1) < s - e <= (- c) * range_len s e c).
+Proof.
+  intros Hc. destruct (Z_lt_le_dec e s) as [H|H].
+  - right. pose proof (range_len_neg_spec s e c Hc H). split; [assumption|]. split; [nia|assumption].
+  - left. split; [assumption|]. now apply range_len_neg_empty.
+Qed.
+
+Lemma gather_prog_eq {A} (p : list A) f1 f2 st n1 n2 :
+  n1 = n2 -> (0 < n1 -> f1 = f2) ->
+  gather p (prog f1 st (Z.to_nat n1)) = gather p (prog f2 st (Z.to_nat n2)).
+Proof.
+  intros <- Hf. destruct (Z_lt_le_dec 0 n1) as [H|H].
+  - now rewrite (Hf H).
+  - replace (Z.to_nat n1) with O by lia. reflexivity.
+Qed.
+
+Lemma py_slice_empty {A} (l : list A) a b c :
+  range_len (adjust_bound (zlen l) c false a) (adjust_bound (zlen l) c true b) c = 0 ->
+  py_slice l a b c = [].
+Proof. intros H. rewrite py_slice_unfold, H. reflexivity. Qed.
+
+(** a Python slice of a gathered progression is a gathered progression *)
+Lemma py_slice_gather_prog {A} (p : list A) f st L a b c : c <> 0 -> 0 <= L ->
+  (forall i, In i (prog f st (Z.to_nat L)) -> 0 <= i < zlen p) ->
+  py_slice (gather p (prog f st (Z.to_nat L))) a b c =
+  gather p (prog (f + adjust_bound L c false a * st) (st * c)
+              (Z.to_nat (range_len (adjust_bound L c false a) (adjust_bound L c true b) c))).
+Proof.
+  intros Hc HL Hin.
+  assert (Hlen : zlen (gather p (prog f st (Z.to_nat L))) = L).
+  { unfold zlen. rewrite gather_length, prog_length by assumption. lia. }
+  rewrite py_slice_unfold, Hlen.
+  apply gather_prog_prog; [assumption|].
+  intros j Hj. rewrite Z2Nat.id by assumption.
+  apply (py_range_in_bounds L a b c j HL Hc). exact Hj.
+Qed.
+
+(** * the value of a view in normal form *)
+
+Lemma value_fwd {A} v (p : list A) : WF v -> 0 < step v -> zlen p = seq_len v ->
+  value v p = gather p (prog (start v) (step v) (Z.to_nat (vlen v))).
+Proof.
+  intros Hwf Hpos Hp. destruct (wf_fwd_facts v Hwf Hpos) as (Hn & Hb & He & HL & HL0 & Hc).
+  unfold value. rewrite py_slice_unfold, Hp.
+  assert (H1 : adjust_bound (seq_len v) (step v) false (Some (start v)) = Z.min (start v) (seq_len v)).
+  { unfold adjust_bound. replace (start v <? 0) with false by lia.
+    destruct (start v >=? seq_len v) eqn:E; replace (step v <? 0) with false by lia; lia. }
+  assert (H2 : adjust_bound (seq_len v) (step v) true (Some (stop v)) = stop v).
+  { unfold adjust_bound. replace (stop v <? 0) with false by lia.
+    destruct (stop v >=? seq_len v) eqn:E; replace (step v <? 0) with false by lia; lia. }
+  rewrite H1, H2.
+  apply gather_prog_eq.
+  - apply range_len_pos_char; [assumption|]. destruct (Z.eq_dec (vlen v) 0) as [E|E]; [left|right]; nia.
+  - intros Hm. assert (Hr := range_len_pos_cases (Z.min (start v) (seq_len v)) (stop v) (step v) Hpos). lia.
+Qed.
+
+Lemma value_rev {A} v (p : list A) : WF v -> step v < 0 -> zlen p = seq_len v ->
+  value v p = gather p (prog (start v + seq_len v) (step v) (Z.to_nat (vlen v))).
+Proof.
+  intros Hwf Hneg Hp. destruct (wf_rev_facts v Hwf Hneg) as (Hn & Hb & He & HL & HL0 & Hc).
+  unfold value. rewrite py_slice_unfold, Hp.
+  assert (H1 : adjust_bound (seq_len v) (step v) false (Some (start v)) = Z.max (start v + seq_len v) (-1)).
+  { unfold adjust_bound. replace (start v <? 0) with true by lia. replace (step v <? 0) with true by lia.
+    destruct (start v + seq_len v <? 0) eqn:E; lia. }
+  assert (H2 : adjust_bound (seq_len v) (step v) true (Some (stop v)) = stop v + seq_len v).
+  { unfold adjust_bound. replace (stop v <? 0) with true by lia. replace (step v <? 0) with true by lia.
+    destruct (stop v + seq_len v <? 0) eqn:E; lia. }
+  rewrite H1, H2.
+  apply gather_prog_eq.
+  - apply range_len_neg_char; [assumption|]. destruct (Z.eq_dec (vlen v) 0) as [E|E]; [left|right]; nia.
+  - intros Hm. assert (Hr := range_len_neg_cases (Z.max (start v + seq_len v) (-1)) (stop v + seq_len v) (step v) Hneg). lia.
+Qed.
+
+(** every displayed index is a valid index of the parent *)
+Lemma value_fwd_in_range v : WF v -> 0 < step v ->
+  forall i, In i (prog (start v) (step v) (Z.to_nat (vlen v))) -> 0 <= i < seq_len v.
+Proof.
+  intros Hwf Hpos i Hi. destruct (wf_fwd_facts v Hwf Hpos) as (Hn & Hb & He & HL & HL0 & Hc).
+  apply prog_In in Hi. destruct Hi as (k & Hk & ->). rewrite Z2Nat.id in Hk by assumption. nia.
+Qed.
+
+Lemma value_rev_in_range v : WF v -> step v < 0 ->
+  forall i, In i (prog (start v + seq_len v) (step v) (Z.to_nat (vlen v))) -> 0 <= i < seq_len v.
+Proof.
+  intros Hwf Hneg i Hi. destruct (wf_rev_facts v Hwf Hneg) as (Hn & Hb & He & HL & HL0 & Hc).
+  apply prog_In in Hi. destruct Hi as (k & Hk & ->). rewrite Z2Nat.id in Hk by assumption. nia.
+Qed.
+
+(** [len(view)] is the length of the displayed string *)
+Lemma len_value_lemma {A} v (p : list A) : WF v -> zlen p = seq_len v -> zlen (value v p) = vlen v.
+Proof.
+  intros Hwf Hp. pose proof (vlen_nonneg v) as HL.
+  destruct (Z_lt_le_dec 0 (step v)) as [Hpos|Hneg].
+  - rewrite value_fwd by assumption. unfold zlen at 1.
+    rewrite gather_length, prog_length; [lia|].
+    intros i Hi. rewrite Hp. now apply value_fwd_in_range.
+  - assert (Hneg' : step v < 0) by (pose proof (wf_step_nz v Hwf); lia).
+    rewrite value_rev by assumption. unfold zlen at 1.
+    rewrite gather_length, prog_length; [lia|].
+    intros i Hi. rewrite Hp. now apply value_rev_in_range.
 Qed.
